@@ -368,6 +368,31 @@ def check_find_notes(ctx, calls):
 
 # ---- (b) arguments are not modified ----------------------------------------------------------------------
 
+def _play_tracks(channels, as_composition=False, bars=False):
+    """one track per given channel, on instruments of every kind (percussion included), played with the caller's channel list"""
+    from mingus.containers import Bar, Composition, Track
+    from mingus.containers.instrument import Instrument, MidiInstrument, MidiPercussionInstrument, Piano
+    from mingus.midi.sequencer import Sequencer
+    s = Sequencer()
+    s.sleep = lambda seconds: None
+    tracks = []
+    for k in range(len(channels)):
+        t = Track([MidiPercussionInstrument(), None, MidiInstrument("Violin"), Piano(), Instrument()][k % 5])
+        b = Bar("C", (2, 4))
+        b.place_notes("C-4", 4)
+        b.place_rest(4)
+        t.add_bar(b)
+        tracks.append(t)
+    if bars:
+        return s.play_Bars([t.bars[0] for t in tracks], channels, 240)
+    if as_composition:
+        c = Composition()
+        for t in tracks:
+            c.add_track(t)
+        return s.play_Composition(c, channels, 240)
+    return s.play_Tracks(tracks, channels, 240)
+
+
 def _arg_calls():
     from mingus.containers import Bar, Note, NoteContainer, Track
     from mingus.containers.instrument import Guitar, Piano
@@ -397,6 +422,9 @@ def _arg_calls():
         "Track(Piano).add_notes": lambda a: Track(Piano()).add_notes(a, 2),
         "Piano.can_play_notes": lambda a: Piano().can_play_notes(a),
         "Instrument.set_range": lambda a: Piano().set_range(a),
+        "Sequencer.play_Tracks/channels": lambda a: _play_tracks(a),
+        "Sequencer.play_Composition/channels": lambda a: _play_tracks(a, True),
+        "Sequencer.play_Bars/channels": lambda a: _play_tracks(a, bars=True),
         "Guitar.notes_in_range": lambda a: Guitar().notes_in_range(a),
         "tuning.find_fingering": lambda a: tun.find_fingering(a),
         "tuning.find_chord_fingering": lambda a: tun.find_chord_fingering(a),
@@ -433,6 +461,7 @@ KIND = {"notes": ["intervals.invert", "chords.determine", "chords.determine/shor
         "dynamics": ["Note/dynamics", "Note/dynamics-only", "Note.set_note/dynamics", "NoteContainer.add_note/dynamics"],
         "any": ["MidiFile"],
         "range": ["Instrument.set_range"],
+        "channels": ["Sequencer.play_Tracks/channels", "Sequencer.play_Composition/channels", "Sequencer.play_Bars/channels"],
         "samples": ["fft.analyze_chunks", "fft.find_frequencies", "fft.find_Note"],
         "freqtable": ["fft.find_notes"]}
 
@@ -706,6 +735,7 @@ def sub_args(ctx, shard, n):
         st.tuples(st.sampled_from(container_calls), nested), st.tuples(st.sampled_from(KIND["notes"]), nested),
         st.tuples(st.sampled_from(KIND["numerals"]), numerals), st.tuples(st.sampled_from(KIND["chordlist"]), chordlist),
         st.tuples(st.sampled_from(KIND["dynamics"]), dyn), st.tuples(st.sampled_from(KIND["any"]), notes),
+        st.tuples(st.sampled_from(KIND["channels"]), st.lists(st.integers(0, 15), min_size=1, max_size=5)),
         st.tuples(st.sampled_from(KIND["range"]), st.lists(st.sampled_from(["C-2", "A-0", "E-3", "C-5", "G-6", "C-8", "Bb-1"]), min_size=2, max_size=2)),
         st.tuples(st.sampled_from(KIND["samples"]), st.lists(st.integers(-2000, 2000), min_size=64, max_size=200)),
         st.tuples(st.sampled_from(KIND["freqtable"]), st.lists(st.tuples(st.floats(20.0, 5000.0), st.floats(0.0, 9.0)).map(list), min_size=1, max_size=6))).map(list)
